@@ -1013,6 +1013,8 @@ def search_C11(n_random, seed):
                     t["amount"] = rnd.choice(precise[:2] + ["2.5", "0.12345678901"])
                 if t["tab"] == "IN" and "fiat_fee" not in t and rnd.random() < 0.4:
                     t["crypto_fee"] = rnd.choice(["0.01", "0.00012345678", "0.5"])
+                    if rnd.random() < 0.6 and "." not in t["ts"][:26]:
+                        t["ts"] = t["ts"][:19] + rnd.choice([".750000", ".000001", ".5"]) + t["ts"][19:]        # sub-second instants survive the fee split
                 if t["tab"] == "IN" and t.get("fiat_in_no_fee") is None and rnd.random() < 0.25:
                     t["fiat_in_with_fee"] = None
             layout = odsgen.permuted_layout(rnd) if k % 3 else odsgen.default_layout()
@@ -1152,6 +1154,7 @@ def fault_cases(rnd, sc):
     cases.append(("options: unsupported accounting method", sc, None, None, ["-m", "wac"]))
     cases.append(("options: from-date after to-date", sc, None, None, ["-f", "2021-01-01", "-t", "2020-01-01"]))
     cases.append(("options: deprecated plugin option", sc, None, None, ["-l", "x"]))
+    cases.append(("options: -a names an asset the configuration does not know", sc, None, None, ["-a", "ZZZ"]))
     return cases
 
 
